@@ -1112,6 +1112,9 @@ impl ProtocolState {
 
         let mut completions : VecDeque<u64> = VecDeque::new();
         mem::swap(&mut completions, &mut self.pending_write_completion_operations);
+
+        // an operation may already have been failed by its ack timeout while the write was outstanding
+        completions.retain(|id| self.operations.contains_key(id));
         let result : GneissResult<()> = self.complete_operation_sequence_as_empty_success(completions.iter().copied());
 
         result
